@@ -45,6 +45,7 @@ impl<'a, T: LangInterpreter> WordToDigitParser<'a, T> {
         if status.is_err()
             && !self.is_dec
             && !self.int_part.is_empty()
+            && !self.int_part.is_ordinal()
             && self.lang.is_decimal_sep(word)
         {
             self.is_dec = true;
